@@ -339,6 +339,8 @@ func c30(r *core.Run) {
 	}
 	r.Floor("R3.vm", 6)
 	c30PairedMetering(r)
+	c30GaugeForwarding(r)
+	c30ConfiguredDepth(r)
 }
 
 // c30PairedMetering: R4 — incremental string metering is paired with the bytes written. Wherever a function appends to a
